@@ -59,7 +59,9 @@ CannotStart(cs) == FirstBad(cs) <= Len(cs) /\ ~Starts(cs, FirstBad(cs))
 DoneIffAllZero(cs, o) == (o.status = "DONE") <=> (AllZero(cs) /\ ~o.raised)
 FailedOtherwise(cs, m, o) ==
    /\ o.status \in {"DONE", "FAILED", "NONE"}
-   /\ o.status = "NONE" <=> (o.raised /\ m = "direct")      \* a raise out of a direct call carries no status
+   /\ o.status = "NONE" => (o.raised /\ m = "direct")       \* only a raise out of a direct call carries no status ...
+   /\ (o.raised /\ m = "direct") => o.status \in {"NONE", "FAILED"}   \* ... or do() itself reports the failure (the statement asks
+                                                             \* that the task fails rather than the run; third audit, benign3-C19)
    /\ o.raised => CannotStart(cs)                           \* only a command that cannot start may raise
    /\ (m = "sched" /\ ~AllZero(cs)) => o.status = "FAILED"  \* ... and under the scheduler the task is FAILED
 StopAtFirst(cs, o) == ~o.raised => Len(o.rcs) = NRun(cs)
